@@ -71,7 +71,10 @@ func (propC03) Gen(seed uint64, tier string, idx int) *Plan {
 		// some proxied exchanges die at connection level on their own
 		for j := 0; j < 40; j++ {
 			if r.Chance(120) {
-				ep.Seq = append(ep.Seq, Resp{Kind: "llm", Status: 200, Fault: &Fault{At: pickS(r, []string{"accept", "before-headers"}), Kind: "rst"}})
+				// some of them only after the request has been in flight for a while, so that health
+				// checks of the same endpoint start and finish in between
+				ep.Seq = append(ep.Seq, Resp{Kind: "llm", Status: 200, PreDelay: pickS(r, []time.Duration{0, 0, 300 * time.Millisecond, 1200 * time.Millisecond, 1800 * time.Millisecond}),
+					Fault: &Fault{At: pickS(r, []string{"accept", "before-headers"}), Kind: "rst"}})
 			} else {
 				ep.Seq = append(ep.Seq, Resp{Kind: "llm", Status: 200})
 			}
@@ -218,6 +221,43 @@ func (propC03) Check(r *Run) []Violation {
 		}
 		add("C03/traffic-to-non-routable-endpoint/marked-by="+lastWho, "request op %d sent at %s reached backend %s at %s, but %s had been %q since before the request and no write made it routable meanwhile (engine %s, balancer %s)",
 			c.OpID, c.StartAt, e.Backend, e.ArrivedAt, e.Backend, st, r.Plan.Stack.Engine, r.Plan.Stack.Balancer)
+	}
+	// "...or a failed attempt completed before the request arrived": the failures are facts of the simulator
+	// (it reset the connection before any answer), not whatever Olla wrote down about them. A request that
+	// starts after the failed request has been answered must not reach that endpoint unless a write made
+	// it routable again after the failure.
+	for _, x := range r.Exchanges {
+		if x.Kind != "proxy" || !(strings.HasPrefix(x.FaultFired, "rst@accept") || strings.HasPrefix(x.FaultFired, "rst@before-headers")) {
+			continue
+		}
+		c1 := res[x.Nonce]
+		if c1 == nil || !c1.Done || c1.TimedOut {
+			continue
+		}
+		failAt := x.ArrivedAt
+		if x.FaultAt > failAt {
+			failAt = x.FaultAt
+		}
+		for _, y := range r.Exchanges {
+			if y.Kind != "proxy" || y.Backend != x.Backend || y == x {
+				continue
+			}
+			c2 := res[y.Nonce]
+			if c2 == nil || c2.StartAt <= c1.DoneAt {
+				continue
+			}
+			readmitted := false
+			for _, w := range writes {
+				if w.Name == x.Backend && w.At >= failAt && w.At <= y.ArrivedAt && routableStr(w.Status) {
+					readmitted = true
+				}
+			}
+			if !readmitted {
+				add("C03/traffic-after-failed-attempt-without-readmission", "attempt of op %d on %s was reset at %s before any answer and that request ended at %s; op %d started at %s and reached %s at %s although nothing marked it routable after the failure (engine %s, balancer %s)",
+					c1.OpID, x.Backend, failAt, c1.DoneAt, c2.OpID, c2.StartAt, y.Backend, y.ArrivedAt, r.Plan.Stack.Engine, r.Plan.Stack.Balancer)
+				break
+			}
+		}
 	}
 	// every Select made by the running stack returned a routable member of its candidate list
 	for _, sc := range r.Stack.Rec.Sel {
